@@ -29,8 +29,8 @@ theorem isNib_drop {k : Bytes} (h : IsNib k) (n : Nat) : IsNib (k.drop n) :=
 
 theorem map_toNib_inj : ∀ {a b : Bytes}, IsNib a → IsNib b → a.map toNib = b.map toNib → a = b
   | [], [], _, _, _ => rfl
-  | [], _ :: _, _, _, h => by simp at h
-  | _ :: _, [], _, _, h => by simp at h
+  | [], _ :: _, _, _, h => nomatch h
+  | _ :: _, [], _, _, h => nomatch h
   | x :: a, y :: b, ha, hb, h => by
     simp only [List.map_cons, List.cons.injEq] at h
     obtain ⟨hx, ha'⟩ := isNib_cons ha
@@ -42,7 +42,7 @@ theorem beq_map_toNib {a b : Bytes} (ha : IsNib a) (hb : IsNib b) :
   by_cases h : a = b
   · subst h; simp
   · have : a.map toNib ≠ b.map toNib := fun e => h (map_toNib_inj ha hb e)
-    simp [h, this]
+    rw [beq_eq_false_iff_ne.mpr h, beq_eq_false_iff_ne.mpr this]
 
 theorem isPrefixOf_map_toNib : ∀ {a b : Bytes}, IsNib a → IsNib b →
     (a.map toNib).isPrefixOf (b.map toNib) = a.isPrefixOf b
@@ -56,7 +56,7 @@ theorem isPrefixOf_map_toNib : ∀ {a b : Bytes}, IsNib a → IsNib b →
     by_cases h : x = y
     · subst h; simp
     · have : toNib x ≠ toNib y := fun e => h (toNib_inj hx hy e)
-      simp [h, this]
+      rw [beq_eq_false_iff_ne.mpr h, beq_eq_false_iff_ne.mpr this]
 
 /-- the storage value of a decoded node, resolved through the database, is `v` -/
 def ValRep (db : DB) (pk : Bytes) (v' : Option Bytes) (hashed : Bool) (v : Option Bytes) : Prop :=
@@ -165,11 +165,14 @@ theorem isNib_keyLE (k : Bytes) : IsNib (TrieCodec.keyLEToNibbles k) := by
   rw [List.mem_flatMap] at hx
   obtain ⟨b, _, hb⟩ := hx
   simp only [List.mem_cons, List.not_mem_nil, or_false] at hb
+  have hlt : b.toNat < 256 := b.toNat_lt
   rcases hb with rfl | rfl
-  · have : ∀ b : UInt8, b / 16 < 16 := by decide
-    exact this b
-  · have : ∀ b : UInt8, b % 16 < 16 := by decide
-    exact this b
+  · rw [UInt8.lt_iff_toNat_lt, UInt8.toNat_div]
+    show b.toNat / 16 < 16
+    omega
+  · rw [UInt8.lt_iff_toNat_lt, UInt8.toNat_mod]
+    show b.toNat % 16 < 16
+    omega
 
 theorem keyLE_nibs (k : Bytes) : (TrieCodec.keyLEToNibbles k).map toNib = Trie.keyLEToNibbles k := by
   have hgen : ∀ k : Bytes, (TrieCodec.keyLEToNibbles k).map toNib = toNibs k := by
@@ -177,7 +180,11 @@ theorem keyLE_nibs (k : Bytes) : (TrieCodec.keyLEToNibbles k).map toNib = Trie.k
     induction k with
     | nil => rfl
     | cons b r ih =>
-      have hb : ∀ b : UInt8, toNib (b / 16) = hiNib b ∧ toNib (b % 16) = loNib b := by decide
+      have hb : ∀ b : UInt8, toNib (b / 16) = hiNib b ∧ toNib (b % 16) = loNib b := by
+        intro b
+        unfold toNib hiNib loNib
+        rw [UInt8.toNat_div, UInt8.toNat_mod]
+        exact ⟨rfl, rfl⟩
       simp only [TrieCodec.keyLEToNibbles, List.flatMap_cons, List.map_append, List.map_cons, List.map_nil,
         toNibs] at ih ⊢
       rw [(hb b).1, (hb b).2]
